@@ -637,3 +637,39 @@ def _int_try_from(m, args, raw):
         ty = re.search(r"TryInto<(\w+)>", raw).group(1)
     lo, hi = _INT_RANGE[ty]
     return Ok(v) if lo <= v < hi else Err(Opaque("TryFromIntError"))
+
+
+@model("Result::as_ref", "Result::as_mut")
+def _result_as_ref(m, args, raw):
+    v = deref(args[0])
+    return Enum(v.ty, v.variant, [Ptr(v.fields, 0)])
+
+
+@model("str::trim", "str::trim_start", "str::trim_end")
+def _str_trim(m, args, raw):
+    """on concrete text: Unicode White_Space, as str::trim specifies"""
+    s = deref(args[0])
+    if getattr(s, "sym", None) is not None or not hasattr(s, "text"):
+        raise Unsupported("trim of a symbolic string")
+    t = s.text
+    which = normalize_tail(raw)
+    if which in ("trim", "trim_start"):
+        t = t.lstrip()
+    if which in ("trim", "trim_end"):
+        t = t.rstrip()
+    return RStr(t)
+
+
+@model("Result::is_err_and", "Result::is_ok_and", "Option::is_some_and", "Option::is_none_or")
+def _is_x_and(m, args, raw):
+    v = args[0]
+    which = normalize_tail(raw)
+    hit = {"is_err_and": "Err", "is_ok_and": "Ok", "is_some_and": "Some", "is_none_or": "Some"}[which]
+    if v.variant != hit:
+        return which == "is_none_or"
+    mc = re.search(r"\{closure@[^}]*\}", raw)
+    fn = m.index.get(mc.group(0)) if mc else None
+    if fn is None:
+        raise Unsupported("closure of " + raw[:60])
+    r = m.run(fn, [args[1], v.fields[0]])
+    return r if isinstance(r, bool) else m.decide(r)
